@@ -107,4 +107,9 @@ def run(ctx, chk):
                 ok = r1 and r1[0] == "sym" and comp.get(r1[1]) == ("sym", s)
                 chk.ob("T-involution", "%s::%s" % (sname, s), bool(ok), "comp(comp(%s)) = %s via %s" % (s, comp.get(r1[1]) if r1 and r1[0] == "sym" else "?", r1), c.where,
                        sample={"sym": s, "comp": r1[1] if r1 and r1[0] == "sym" else None})
+    import core
+    for cfg in ctx.configs():
+        chk.cfg = cfg.name
+        # to_rev / to_comp / to_revcomp work on `to_owned()` of the receiver: the copy is C06's constructor rows (whole symbols)
+        core.import_rows(chk, cfg, "C06", "props.C06", ("I-align", "I-override"))
     chk.floor("in-place loops established", nloops, 2 * len(chk.configs))
